@@ -41,6 +41,7 @@ package types
 //@                 && (forall a: int :: 0 <= a && a < len(g.Requirements.SignedBy.AllOf) ==> signedCover(g.Requirements.Attributes, provider, g.Requirements.SignedBy.AllOf[a]))
 //@                 && (len(g.Requirements.SignedBy.AnyOf) == 0 ||
 //@                     (exists a: int :: 0 <= a && a < len(g.Requirements.SignedBy.AnyOf) && signedCover(g.Requirements.Attributes, provider, g.Requirements.SignedBy.AnyOf[a])))))
+//@   loop 1 modifies existingRequirements[*]
 //@   loop 1 invariant 0 <= iter && iter <= len(provider) - 1 && existingRequirements != nil && fresh(existingRequirements)
 //@   loop 1 invariant forall k: int :: 1 <= k && k < iter + 1 ==> has(existingRequirements, provider[k].Auditor) && existingRequirements[provider[k].Auditor] == provider[k].Attributes
 //@   loop 1 invariant forall v: str :: has(existingRequirements, v) ==> (exists k: int :: 1 <= k && k < iter + 1 && provider[k].Auditor == v)
@@ -93,7 +94,8 @@ package types
 //@ func (GroupSpec).GetResources
 //@   ensures len(result) == len(g.Resources) && fresh(result)
 //@   ensures forall i: int :: 0 <= i && i < len(result) ==> result[i].Resources == g.Resources[i].Resources && result[i].Count == g.Resources[i].Count
-//@   loop 1 invariant 0 <= iter && iter <= len(g.Resources) && len(resources) == iter && cap(resources) == len(g.Resources) && fresh(resources)
+//@   loop 1 modifies resources[**]
+//@   loop 1 invariant 0 <= iter && iter <= len(g.Resources) && len(resources) == iter && cap(resources) == len(g.Resources) && fresh(resources) && arr(resources) == atloop(arr(resources))
 //@   loop 1 invariant forall i: int :: 0 <= i && i < iter ==> resources[i].Resources == g.Resources[i].Resources && resources[i].Count == g.Resources[i].Count
 
 // group totals: sum over the units of (per-unit amount x replica count), mathematical integers
@@ -144,6 +146,7 @@ package types
 //@   ensures [count] result == nil ==> 1 <= len(gspecs) && len(gspecs) <= validationConfig.MaxGroupCount
 //@   ensures [valid] result == nil ==> (forall i: int :: 0 <= i && i < len(gspecs) ==> okGroup(gspecs[i]))
 //@   ensures [names] result == nil ==> (forall i: int, j: int :: 0 <= i && i < j && j < len(gspecs) ==> gspecs[i].Name != gspecs[j].Name)
+//@   loop 1 modifies names[*]
 //@   loop 1 invariant 0 <= iter && iter <= len(gspecs) && names != nil && fresh(names)
 //@   loop 1 invariant forall i: int :: 0 <= i && i < iter ==> okGroup(gspecs[i]) && has(names, gspecs[i].Name)
 //@   loop 1 invariant forall i: int, j: int :: 0 <= i && i < j && j < iter ==> gspecs[i].Name != gspecs[j].Name
